@@ -371,6 +371,14 @@ func writeIfChanged(path, content string) {
 	if err == nil && string(old) == content {
 		return
 	}
+	// put in place atomically: another check may be compiling the previous version right now
+	tmp := fmt.Sprintf("%s.%d.tmp", path, os.Getpid())
+	if err := os.WriteFile(tmp, []byte(content), 0o644); err == nil {
+		err = os.Rename(tmp, path)
+		if err == nil {
+			return
+		}
+	}
 	if err := os.WriteFile(path, []byte(content), 0o644); err != nil {
 		fmt.Fprintln(os.Stderr, "extract:", err)
 		os.Exit(2)
